@@ -3,7 +3,7 @@
    the same events in another parents-first order, and an ancestor-closed subset). *)
 From Coq Require Import List Arith NArith Bool Lia ZArith.
 From LV Require Import model.VecIndex lib.WSumBft spec.ElectionSpec proofs.BftCore proofs.BftElection
-  proofs.BftMono proofs.BftGraph proofs.BftMain proofs.BftRun.
+  proofs.BftMono proofs.BftGraph proofs.BftMain proofs.BftRun proofs.BftFcSpec proofs.BftAccept.
 Import ListNotations.
 Open Scope N_scope.
 
@@ -26,12 +26,15 @@ Definition impl_refines_spec (run : impl_model) : Prop :=
 Definition C10_full (run : impl_model) : Prop :=
   forall vals D, valid_run vals D -> run vals D = reference vals D.
 
-(* C01 at full strength (single epoch): instances fed valid event sequences D1, D2 of one DAG, each in
-   any parents-first order, accept every event; if D1's events are among D2's the blocks of D1 are
-   an initial segment of the blocks of D2, and equal event sets give equal block sequences *)
+(* C01 at full strength (per epoch).  The DAG of the epoch is given by D2, a sequence in which every
+   event is valid (accepted by the rules when taken in that order, e.g. the order of creation) and
+   whose forkers hold < 1/3.  An instance is fed ANY parents-first arrangement D1 of ANY subset of
+   these events (parents-first forces the subset to be ancestor-closed; ids are not repeated).
+   Then: the instance accepts every event; its blocks are an initial segment of the blocks of an
+   instance that has processed all of D2; if it has processed all events, the blocks are equal. *)
 Definition C01_full (run : impl_model) : Prop :=
-  forall vals D1 D2, valid_run vals D2 -> all_accepted vals D1 -> incl D1 D2 ->
-    codes_ok (fst (run vals D1)) /\ codes_ok (fst (run vals D2)) /\
+  forall vals D1 D2, valid_run vals D2 -> incl D1 D2 -> NoDup (ids_of D1) -> parents_first D1 ->
+    codes_ok (fst (run vals D1)) /\
     prefix (snd (run vals D1)) (snd (run vals D2)) /\
     (incl D2 D1 -> snd (run vals D1) = snd (run vals D2)).
 
@@ -45,12 +48,36 @@ Qed.
 
 Theorem C01_from_refinement run : impl_refines_spec run -> C01_full run.
 Proof.
-  intros Href vals D1 D2 V2 A1 Hincl.
+  intros Href vals D1 D2 V2 Hincl Hnd Hpf.
+  pose proof V2 as [A2 Hff].
+  pose proof (acceptance_order_independent vals D2 D1 A2 Hincl Hnd Hpf) as A1.
   pose proof (valid_run_sub vals D1 D2 V2 A1 Hincl) as V1.
-  rewrite (Href vals D1 V1), (Href vals D2 V2). destruct V2 as [A2 Hff].
-  split; [rewrite reference_codes; exact A1|]. split; [rewrite reference_codes; exact A2|].
+  rewrite (Href vals D1 V1), (Href vals D2 V2).
+  split; [rewrite reference_codes; exact A1|].
   split; [apply reference_prefix; assumption|].
   intros Hincl2. apply reference_same_set; assumption.
+Qed.
+
+(* several epochs: two instances that are fed, in every epoch, the same event set (each in its own
+   order) go through the same epochs: same blocks, same sealing decisions, same validator sets *)
+Fixpoint epochs_valid (pol : N) (vals : list (N * N)) (ep : N) (Ds Ds' : list (list fev)) : Prop :=
+  match Ds, Ds' with
+  | [], [] => True
+  | D :: r, D' :: r' => all_accepted vals D /\ all_accepted vals D' /\ incl D D' /\ incl D' D /\
+                        few_forkers vals (table vals D') /\ epochs_valid pol (next_vals pol vals ep) (ep + 1) r r'
+  | _, _ => False
+  end.
+Definition epoch_blocks (r : list (N * N) * list (N * N * list N) * bool) := (snd (fst r), snd r).
+
+Theorem reference_epochs_same_sets seal pol : forall Ds Ds' vals ep, epochs_valid pol vals ep Ds Ds' ->
+  map epoch_blocks (reference_epochs seal pol vals ep Ds) = map epoch_blocks (reference_epochs seal pol vals ep Ds').
+Proof.
+  induction Ds as [|D r IH]; intros [|D' r'] vals ep H; cbn [epochs_valid] in H; try contradiction; [reflexivity|].
+  destruct H as [A [A' [I [I' [Hff Hr]]]]]. cbn [reference_epochs].
+  pose proof (reference_same_set vals D D' A A' I I' Hff) as E.
+  destruct (reference vals D) as [rs bs]. destruct (reference vals D') as [rs' bs']. cbn [snd] in E. subst bs'.
+  destruct (seal_cut seal bs) as [cut sealed]. destruct sealed; cbn [map epoch_blocks fst snd]; f_equal.
+  apply IH; exact Hr.
 Qed.
 
 (* the reference refines itself: C10_full / C01_full are satisfiable *)
@@ -222,6 +249,35 @@ Example ex_incl' : incl ex_D' ex_D /\ incl ex_D ex_D'.
 Proof. split; apply (incl_dec fev_eqb fev_eqb_eq); vm_compute; reflexivity. Qed.
 Example ex_incl_sub : incl ex_Dsub ex_D.
 Proof. apply (incl_dec fev_eqb fev_eqb_eq); vm_compute; reflexivity. Qed.
+Lemma parents_first_dec (D : list fev) :
+  (fix go (P : list N) (l : list fev) : bool :=
+     match l with [] => true | e :: r => forallb (fun p => existsb (N.eqb p) P) (epar (fe e)) && go (eid (fe e) :: P) r end) [] D = true ->
+  parents_first D.
+Proof.
+  intros H P e R ED p Hp. subst D.
+  assert (G : forall (l : list fev) (Q : list N) (P : list fev),
+     (fix go (P : list N) (l : list fev) : bool :=
+        match l with [] => true | e :: r => forallb (fun p => existsb (N.eqb p) P) (epar (fe e)) && go (eid (fe e) :: P) r end) Q (P ++ e :: R) = true ->
+     In p Q \/ In p (ids_of P)).
+  { clear H. intros _ Q P0. revert Q. induction P0 as [|x P0 IH]; intros Q H.
+    - cbn [app] in H. apply andb_prop in H as [H _]. rewrite forallb_forall in H. specialize (H p Hp).
+      apply existsb_exists in H as [y [Hy E]]. apply N.eqb_eq in E. subst y. left. exact Hy.
+    - cbn [app] in H. apply andb_prop in H as [_ H]. destruct (IH _ H) as [[E|H1]|H1].
+      + right. left. exact E.
+      + left. exact H1.
+      + right. right. exact H1. }
+  destruct (G [] [] P H) as [[]|H1]. exact H1.
+Qed.
+Lemma nodup_dec (l : list N) : (fix go (l : list N) : bool := match l with [] => true | x :: r => negb (existsb (N.eqb x) r) && go r end) l = true -> NoDup l.
+Proof.
+  induction l as [|x r IH]; intros H; [constructor|]. apply andb_prop in H as [H1 H2]. constructor; [|apply IH; exact H2].
+  intros Hin. apply negb_true_iff in H1. assert (existsb (N.eqb x) r = true); [|congruence].
+  apply existsb_exists. exists x. split; [exact Hin|apply N.eqb_refl].
+Qed.
+Example ex_arrangement' : NoDup (ids_of ex_D') /\ parents_first ex_D'.
+Proof. split; [apply nodup_dec; vm_compute; reflexivity|apply parents_first_dec; vm_compute; reflexivity]. Qed.
+Example ex_arrangement_sub : NoDup (ids_of ex_Dsub) /\ parents_first ex_Dsub.
+Proof. split; [apply nodup_dec; vm_compute; reflexivity|apply parents_first_dec; vm_compute; reflexivity]. Qed.
 (* two blocks are decided, the second one reports the forking validator (id 37094) *)
 Example ex_blocks : snd (reference ex_vals ex_D) = [(1, 0, []); (2, 15, [37094])].
 Proof. vm_compute. reflexivity. Qed.
